@@ -1,6 +1,6 @@
 """C04 - quaternion, matrix, axis-angle and Euler forms of a rotation agree (also under GLM_FORCE_QUAT_DATA_WXYZ)."""
 from props.common import *
-import math, struct
+import math, struct, time
 from fractions import Fraction
 import realtrig
 from irsym import Exec
@@ -179,16 +179,76 @@ def abstract_ites(t, tag='ite'):
         for c in x.children(): go(c)
     go(t)
     return z3.substitute(t, *subs.values()) if subs else t
-def chk(S, unit, fn, spec, pre=None, setup=None, abstract_side=False, **kw):
+def linearise(t, tab=None):
+    """generalisation used for decision-level goals: every real arithmetic subterm is put into polynomial normal form (engine/realtrig.poly_of) and each NON-LINEAR monomial
+    becomes a fresh real, so two syntactically different writings of the same polynomial become the same linear term.  If the generalised formula is valid, so is the original."""
+    tab = {} if tab is None else tab
+    ARITH = (z3.Z3_OP_ADD, z3.Z3_OP_SUB, z3.Z3_OP_UMINUS, z3.Z3_OP_MUL, z3.Z3_OP_DIV)
+    memo = {}
+    def has_ite(x):
+        if not z3.is_app(x): return False
+        k = x.decl().kind()
+        if k == z3.Z3_OP_ITE: return True
+        return k in ARITH and any(has_ite(c) for c in x.children())
+    def go(x):
+        k = x.get_id()
+        if k in memo: return memo[k]
+        r = x
+        if z3.is_app(x) and x.num_args():
+            kind = x.decl().kind()
+            if z3.is_real(x) and kind in ARITH and not has_ite(x):
+                p = realtrig.poly_of(x); parts = []
+                for m, c in sorted(p.t.items()):
+                    if len(m) == 0: parts.append(z3.RealVal(str(c))); continue
+                    if len(m) == 1: v = p.atoms[m[0]]
+                    else: v = tab.setdefault(m, z3.Real('mono!%d' % len(tab)))
+                    parts.append(v if c == 1 else z3.RealVal(str(c)) * v)
+                r = sum_(parts) if parts else z3.RealVal(0)
+            else:
+                r = x.decl()(*[go(c) for c in x.children()])
+        memo[k] = r; return r
+    return go(t)
+def staged(S, name, goal, pre_hyps, all_hyps, replay, timeout, meta):
+    """decision-level obligation, cheapest route first: (A) hypothesis-free on the monomial-abstracted goal (linear arithmetic; decides 'same polynomial, same function application'),
+    (B) under the precondition only (exact arithmetic, no trig axioms): unsat proves it, a model is only a candidate and counts when the native replay reproduces it, (C) the full query"""
+    t0 = time.time(); r, m, dt, used = S.query([z3.Not(linearise(goal))], 10, 'z3')
+    if r == 'unsat':
+        S.rec(name=name, solver='z3 (hypothesis-free; non-linear monomials abstracted to fresh reals)', result='unsat', time_s=round(dt, 3), status='discharged', mandatory=True, **meta); return
+    r, m, dt, used = S.query(list(pre_hyps) + [z3.Not(goal)], 10, 'nra')
+    if r == 'unsat':
+        S.rec(name=name, solver=used + ' (precondition only, no function axioms)', result='unsat', time_s=round(dt, 3), status='discharged', mandatory=True, **meta); return
+    if r == 'sat':
+        try: verdict, info = replay(m)
+        except Exception as e: verdict, info = 'replay-error', {'error': str(e)[:300]}
+        if verdict == 'reproduced':
+            S.rec(name=name, solver=used + ' (precondition only, no function axioms)', result='sat', time_s=round(dt, 3), status='counterexample', replay=verdict, replay_info=info, mandatory=True, **meta)
+            S.violations.append((name, info)); return
+    S.prove(name, goal, all_hyps, timeout=timeout, solver='nra', replay=replay, **meta)
+
+def chk(S, unit, fn, spec, pre=None, setup=None, abstract_side=False, staged_if=None, **kw):
     """check_fn in real mode; spec(i, o, T) gets a Trig context bound to the executor that ran the code; setup(res, T) may instantiate lemmas.
     abstract_side: the executor's side obligations (sqrt/division domains, traps) are discharged on a generalisation in which merged-path If-terms are fresh reals"""
     box = {}
     def xh(res):
         box['T'] = Trig(res.ex); box['res'] = res
-        return list(setup(res, box['T']) or []) if setup else []
+        box['extra'] = list(setup(res, box['T']) or []) if setup else []
+        return box['extra']
     kw.setdefault('mode', 'real'); kw.setdefault('timeout', S.cap(40, 120)); kw.setdefault('solver', 'nra')
     if abstract_side: kw['side'] = False
-    res = S.check_fn(unit, fn, lambda i, o: spec(i, o, box['T']), pre, extra_hyps=xh, ex=mkex, **kw)
+    full = lambda i, o: spec(i, o, box['T'])
+    def sp(i, o):
+        goals = full(i, o)
+        if staged_if is None or is_num(i[0][0]): return goals          # numeric replay: all labels
+        res = box['res']; name = kw.get('name') or '%s.%s' % (unit.name, fn); rest = []
+        p = pre(res.ins) if pre else []
+        p = list(p if isinstance(p, (list, tuple)) else [p])
+        for label, g in goals:
+            if not staged_if(label): rest.append((label, g)); continue
+            oname = '%s.%s' % (name, label)
+            staged(S, oname, goal_term(g), p, p + box['extra'] + res.axioms, S._replayer(res, (full, label), pre, unit, fn, 'real', oname), kw['timeout'],
+                   dict(kind='spec', functions=['w_' + fn], bounds=kw.get('bounds', '')))
+        return rest
+    res = S.check_fn(unit, fn, sp, pre, extra_hyps=xh, ex=mkex, **kw)
     if abstract_side and res is not None:
         p = pre(res.ins) if pre else []
         hy = list(p if isinstance(p, (list, tuple)) else [p]) + res.axioms
@@ -346,6 +406,44 @@ def job_lemmas(S):
     for r in range(3):
         for cidx in range(3): P('rotmat(p q) == rotmat(p) rotmat(q) [r%dc%d]' % (r, cidx), Rpq[r][cidx] == matmul(Rp, Rq)[r][cidx])
 
+def job_lemmas_euler(S):
+    """code-free chain behind quat(eulerAngles(q)): the angles that props pyr_* pin down (pitch = atan2(R21,R22) / 2 atan2(x,w) on the guarded branch, yaw = asin(-R20),
+    roll = atan2(R10,R00) / 0 on the guarded branch) rebuild the rotation of q.  Trig values are scalar variables constrained by the facts engine/realtrig.py attaches to
+    atan2 (r cos = x, r sin = y, r^2 = x^2+y^2, r > 0 off the origin), asin (sin = t, cos >= 0) and the double-angle identities for yaw/2 (|yaw/2| <= pi/4 => cos > 0)."""
+    P = lambda n, g, h=(): S.prove('c04.lemmas.' + n, g, list(h), timeout=S.cap(30, 90), solver='nra', kind='lemma', functions=['(specification-side lemma)'])
+    p = list(z3.Reals('p0 p1 p2 p3')); w, x, y, z = p; A = euler_spec_args(p); Rm = rotmat(p); U1 = [unit(p)]
+    xP, yP, xR, yR, sY = A['xP'], A['yP'], A['xR'], A['yR'], A['sY']
+    cP, sP, rP, cR, sR, rR, sinY, cosY, X, c2, a, b, c, d = z3.Reals('cP sP rP cR sR rR sinY cosY X c2 a b c d')
+    # --- regular branches: Rz(roll) Ry(yaw) Rx(pitch) == rotmat(q), entry by entry
+    P('euler.circle.pitch: R21^2+R22^2 == 1-R20^2', xP * xP + yP * yP == 1 - sY * sY, U1)
+    P('euler.circle.roll: R10^2+R00^2 == 1-R20^2', xR * xR + yR * yR == 1 - sY * sY, U1)
+    P('euler.asin-domain.lo: -R20 >= -1', sY >= -1, U1); P('euler.asin-domain.hi: -R20 <= 1', sY <= 1, U1)
+    P('euler.hyp==cos(yaw)', rP == cosY, [rP * rP == c2, cosY * cosY == c2, rP > 0, cosY >= 0])
+    P('euler.cos(yaw)>0 off the singularity', cosY > 0, [rP == cosY, rP > 0])
+    P('euler.entry.easy: cos(yaw) sin(pitch) == R21', cosY * sP == d, [rP == cosY, rP * sP == d])
+    hard = {(0, 1): (xR * sY * yP - yR * xP, cR * sinY * sP - sR * cP, a * sinY * d - b * c), (0, 2): (xR * sY * xP + yR * yP, cR * sinY * cP + sR * sP, a * sinY * c + b * d),
+            (1, 1): (yR * sY * yP + xR * xP, sR * sinY * sP + cR * cP, b * sinY * d + a * c), (1, 2): (yR * sY * xP - xR * yP, sR * sinY * cP - cR * sP, b * sinY * c - a * d)}
+    for (r, cc), (poly, entry, scal) in hard.items():
+        P('euler.cofactor[r%dc%d]: R_rc (1-R20^2) == combination of first column / last row' % (r, cc), Rm[r][cc] * (1 - sY * sY) == poly, U1)
+        P('euler.entry[r%dc%d]' % (r, cc), entry == X, [rR == cosY, rP == cosY, cosY > 0, rR * cR == a, rR * sR == b, rP * cP == c, rP * sP == d, X * (cosY * cosY) == scal])
+    # half-angle axis quaternions are the single-axis rotations (links props qeul_*: qua(euler) == qz*qy*qx, and lemmas 'rotmat(p q) == rotmat(p) rotmat(q)')
+    ch, sh, ca, sa = z3.Reals('ch sh ca sa'); T0 = type('T0', (), {'cos': staticmethod(lambda _: ca), 'sin': staticmethod(lambda _: sa)})
+    for ax, qa in (('X', [ch, sh, ZERO, ZERO]), ('Y', [ch, ZERO, sh, ZERO]), ('Z', [ch, ZERO, ZERO, sh])):
+        Ra = R(T0, ax, None); Rq = rotmat(qa)
+        for r in range(3):
+            for cc in range(3): P('euler.axisquat.%s[r%dc%d]: rotmat(cos a/2, sin a/2 e_%s) == R%s(a)' % (ax, r, cc, ax, ax), Rq[r][cc] == Ra[r][cc], [ch * ch + sh * sh == 1, ca == ch * ch - sh * sh, sa == 2 * sh * ch])
+    # --- exact gimbal lock (R21 == R22 == 0): pitch = 2 atan2(x, w), roll = 0, yaw = +-pi/2 give back q itself
+    H = U1 + [xP == 0, yP == 0]; G = H + [xR == 0, yR == 0]; half = z3.RealVal('1/2')
+    P('gimbal.roll-guard.x: R00 == 0', xR == 0, H); P('gimbal.roll-guard.y: R10 == 0', yR == 0, H)
+    P('gimbal.w^2+x^2==1/2', w * w + x * x == half, G); P('gimbal.R20^2==1', sY * sY == 1, H)
+    P('gimbal.y==w sin(yaw)', y == w * sY, G); P('gimbal.z==-x sin(yaw)', z == -x * sY, G)
+    c5, s5, r5, cy, sy = z3.Reals('c5 s5 r5 cy sy')
+    P('gimbal.hyp>0', r5 > 0, [r5 * r5 == half, r5 >= 0])
+    F = [r5 * r5 == half, r5 > 0, r5 * c5 == w, r5 * s5 == x, sinY * sinY == 1, cosY >= 0, sinY * sinY + cosY * cosY == 1, cy * cy - sy * sy == cosY, 2 * sy * cy == sinY, cy * cy + sy * sy == 1, cy > 0,
+         y == w * sinY, z == -x * sinY]
+    for k, got in enumerate([c5 * cy, s5 * cy, c5 * sy, -s5 * sy]):        # qy(yaw) * qx(pitch) with roll = 0 (props qeul_*: qua(euler) == qz*qy*qx)
+        P('gimbal.quat(2atan2(x,w), yaw, 0)[%s] == q[%s]' % (NAMES[k], NAMES[k]), got == p[k], F)
+
 def rodrigues(T, axis, a, w):
     """rotation of w about the unit axis by angle a"""
     c, s = T.cos(a), T.sin(a); k = dot(axis, w); x = cross(axis, w)
@@ -420,7 +518,7 @@ def job_eulerq(lay, t):
                       (tag + 'roll.singular==0', RGoal('eq', Rl, ZERO, A['gR'])), (tag + 'roll.regular==atan2(R10,R00)', RGoal('eq', Rl, A['R.reg'], z3.Not(A['gR']))),
                       (tag + 'yaw.sin==-R20', REq(T.sin(Y), A['sY'])), (tag + 'yaw.cos>=0', RGoal('ge', T.cos(Y), ZERO))]
             return g
-        chk(S, Un, 'pyr_' + t, spec, lambda i: [unit(i[0])], setup=setup,
+        chk(S, Un, 'pyr_' + t, spec, lambda i: [unit(i[0])], setup=setup, staged_if=lambda l: 'pitch' in l or 'roll' in l,
             bounds='all unit q; guard |R22|,|R21| <= epsilon<T>() (pitch) / |R00|,|R10| <= epsilon<T>() (roll) decided on the exact values; atan2/asin as shared function applications')
     return run
 
@@ -468,7 +566,7 @@ def job_ctor(lay, t):
     return run
 
 def jobs(tier):
-    q = tier == 'quick'; J = [('lemmas', job_lemmas)]
+    q = tier == 'quick'; J = [('lemmas', job_lemmas), ('lemmas_euler', job_lemmas_euler)]
     for lay in UNITS:
         for t in FT:
             J += [('rotate_%s_%s' % (lay, t), job_rotate(lay, t)), ('roundtrip_%s_%s' % (lay, t), job_roundtrip(lay, t, ('rt', 'rt4') if q else ('rt', 'rt4', 'rtc', 'rtg'))),
